@@ -323,6 +323,44 @@ theorem tieA_set_modulation_params_1276 (cfg : Sx127x.Config) (hc : cfg.chip = .
 
 #print axioms tieA_set_modulation_params_1276
 
+/-! ## symbol-count RX timeout -/
+
+macro "tie_wr_last" : tactic => `(tactic| (
+  try tie_norm [if_true]
+  refine tie_write_last _ _ _ (by first | exact gen_write_1276 _ _ _ | exact gen_write_1272 _ _ _) _ ?_ _ _))
+
+/-- `Sx127x::set_lora_symbol_num_timeout` IS the model's `setLoraSymbolNumTimeout`: the count clamped to 1023, its bits
+9..8 into RegModemConfig2[1:0] by read-modify-write (always performed), its low byte into RegSymbTimeoutLsb — every
+`u16` count (indeed every natural number), chip content and prefix. -/
+theorem tieA_set_lora_symbol_num_timeout_127x (self : Gen.PhyEnc1276.Sx127x) (n : Nat) (c : Chip) (log : List Rt.Phy.Ev) :
+    view id (Gen.PhyEnc1276.Sx127x.set_lora_symbol_num_timeout self (n : Int) chipDev c log)
+      = denote (Sx127x.setLoraSymbolNumTimeout n) c log := by
+  have e : min (n : Int) 1023 = ((min n 1023 : Nat) : Int) := by omega
+  have e' : (if decide ((n : Int) > 1023) = true then (1023 : Int) else (n : Int)) = ((min n 1023 : Nat) : Int) := by
+    split <;> rename_i h <;> simp only [decide_eq_true_eq] at h <;> omega
+  simp only [Gen.PhyEnc1276.Sx127x.set_lora_symbol_num_timeout, Sx127x.setLoraSymbolNumTimeout, Sx127x.SX127X_MAX_LORA_SYMB_NUM_TIMEOUT, e, e']
+  have hv : min n 1023 ≤ 1023 := by omega
+  generalize min n 1023 = v at hv ⊢
+  have e2 : (v : Int) / 256 = ((v / 256 : Nat) : Int) := by omega
+  have hq : v / 256 ≤ 3 := by omega
+  tie_norm [Int.reduceToNat, Int.reducePow, e2]
+  generalize v / 256 = q at hq ⊢
+  tie_rd
+  tie_wr
+  · have hq' : q = 0 ∨ q = 1 ∨ q = 2 ∨ q = 3 := by omega
+    rcases hq' with rfl | rfl | rfl | rfl <;> tie_val []
+  tie_wr_last
+  · have w : Rt.wrap .u8 (v : Int) = ((v % 256 : Nat) : Int) := by
+      simp only [Rt.wrap, Rt.ITy.bits, Rt.ITy.signed, Bool.false_eq_true, if_false]; omega
+    simp only [wrap_and255_nat, w, UInt8.toNat_ofNat', Nat.reducePow, Nat.mod_mod]
+
+#print axioms tieA_set_lora_symbol_num_timeout_127x
+
+/-- non-vacuity: 600 symbols = 0x258 on a chip whose RegModemConfig2 reads 0x74 -/
+example : Gen.PhyEnc1276.Sx127x.set_lora_symbol_num_timeout ⟨⟨⟨⟩, false, true, false⟩, ⟨false⟩⟩ 600
+    (fun (_ : Unit) _ n => (List.replicate n 0x74, ())) () [] =
+    some (.ok (), (), [.spi [0x1E] 1, .busy, .spi [0x9E, 0x76] 0, .busy, .spi [0x9F, 0x58] 0, .busy]) := rfl
+
 /-- non-vacuity: SF7 / 125 kHz / 4-5 on an SX1276 (silicon 0x12) whose registers all read 0x25 -/
 example : Gen.PhyEnc1276.Sx127x.set_modulation_params ⟨⟨⟨⟩, false, true, false⟩, ⟨true⟩⟩
     (genMod76 ⟨._7, ._125KHz, ._4_5, 0, 868100000⟩) (fun (_ : Unit) _ n => (List.replicate n 0x25, ())) () [] =
